@@ -5,6 +5,7 @@ go 1.22.0
 toolchain go1.23.5
 
 require (
+	github.com/gogo/protobuf v1.3.2
 	github.com/zeebo/errs v1.2.2
 	golang.org/x/tools v0.29.0
 	google.golang.org/protobuf v1.27.1
